@@ -323,6 +323,21 @@ impl<K: HKey> Session<K> {
                 if v.is_empty() { "_".into() } else { v.iter().map(|(h, c)| format!("{}:{}", hx(h), c)).collect::<Vec<_>>().join(",") }
             }
             ["len"] => format!("{}", cas!().read_index_state().len()),
+            // file descriptors of this process that still refer to an UNLINKED staging file of the
+            // database (a dropped transaction whose staging inode is kept alive). Only staging/:
+            // in Async mode the background sync may briefly hold a blob that was just replaced.
+            ["leaks"] => {
+                let mut n = 0;
+                if let Ok(rd) = std::fs::read_dir("/proc/self/fd") {
+                    for e in rd.flatten() {
+                        if let Ok(t) = std::fs::read_link(e.path()) {
+                            let t = t.to_string_lossy().into_owned();
+                            if t.ends_with(" (deleted)") && t.starts_with(&*self.dir.join("staging").to_string_lossy()) { n += 1; }
+                        }
+                    }
+                }
+                format!("{n}")
+            }
             ["mem"] => {
                 let c = cas!();
                 format!("next={} persisted={} intents={} protected={}", c.verif_next_op_version(), c.verif_last_persisted_version(), c.verif_intents().len(), c.verif_protected().len())
